@@ -14,7 +14,7 @@ EXTRA_TARGETS = {
     'C14': ['XdocModel.Proofs.C14Total'],
     'C15': ['XdocModel.Proofs.Compose2'],
     'C18': ['XdocModel.Proofs.C18Labels', 'XdocModel.Proofs.Compose'],
-    'C19': ['XdocModel.Proofs.Compose2'],
+    'C19': ['XdocModel.Proofs.Compose2', 'XdocModel.Proofs.DumpKept'],
 }
 
 # cross-cluster compositions (Proofs/Compose.lean): audited together with the property they complete
@@ -110,7 +110,11 @@ EXTRA_TEXT = {
     'C15': (" ADDED (Proofs/Compose2.lean): `both_exit_nonzero_iff_failed_of_frames`, `exit_statuses_agree` with the escape hypothesis replaced by C09's frame hypothesis."),
     'C19': (" ADDED (Proofs/Compose2.lean, C19∘C13∘C01): `dump_of_parsed_is_program(_exact)` — for an example whose parts come from the parser model, the body of its dumped "
             "test function minus header, want comments and the four-blank indent is exactly the de-prompted source of the docstring in order minus star imports; "
-            "`cleanExample_of_parse` discharges C19's cleanliness hypothesis from the C13 tiling; `star_only_part_leaves_blank_line` is the one residue hypothesis that is needed."),
+            "`cleanExample_of_parse` discharges C19's cleanliness hypothesis from the C13 tiling; `star_only_part_leaves_blank_line` is the one residue hypothesis that is needed. "
+            "ADDED (Proofs/DumpKept.lean, fourth session): the star-import filter statement by statement, for ALL parts without any cleanliness hypothesis — "
+            "`mem_kept_iff` (a line is dumped iff it is an exec line without ' import *'), `count_kept` / `count_kept_star` (a kept line occurs in the dump exactly as "
+            "often as in the source, a star import never), `kept_sublist` (source order), `kept_eq_of_no_star`, `kept_length`, `removeStar_append` / "
+            "`removeStar_cons_star` / `removeStar_idem` (the filter is line-local: consecutive star imports all go, cf. seeded change C19-5A)."),
     'C01': (" ADDED (Proofs/Compose.lean, cross-cluster): `parse_exec_lines_are_program` (for every successfully parsed docstring the exec_lines of all parts, "
             "concatenated in order, are the de-prompted source lines of all chunks in order) and `parse_run_eq_program` (running the parts produced by the parser "
             "model, no skip and no failure, is the left fold of `sem` over them in source order, every part exactly once) — C13's tiling composed with C01's "
